@@ -6,8 +6,10 @@ use crate::report::{Ctx, Tier};
 use crate::run::run_pure;
 use gamedig_id_tests::{test_game_name_rules, test_single_game_rule};
 
-const TOKENS: [&str; 16] = [
+const TOKENS: [&str; 19] = [
     "Dead", "cells", "of", "The", "S.T.A.L.K.E.R.", "IV", "XIV", "MIX", "2", "16", "2003", "D-Day", "Half-Life", "'44-'45", "Isaac:", "4-Ever",
+    // words gluing digits and letters (split by the checker where digits and letters meet)
+    "3D", "Quake4", "4x4",
 ];
 const BRACKETS: [&str; 4] = ["", " (2003)", " (java)", " (legacy 1.6)"];
 const MODS: [&str; 3] = ["", " - FiveM", " - Multi Theft Auto"];
@@ -122,9 +124,9 @@ impl Prop for C20 {
     fn n_cases(&self, tier: Tier) -> usize { cases(tier).len() }
     fn case_label(&self, tier: Tier, idx: usize) -> String { cases(tier)[idx].0.clone() }
     fn rule(&self) -> String {
-        "names: every sequence of 1..4 (quick) / 1..5 (thorough) tokens from a 16-token alphabet (words, capitalised words, a \
+        "names: every sequence of 1..4 (quick) / 1..5 (thorough) tokens from a 19-token alphabet (words, capitalised words, a \
          dotted acronym, roman numerals I-forms, numbers 2/16/2003, hyphenated pairs, a '44-'45 number range, a word with \
-         punctuation, a number-word hyphenation) x bracket suffix {none, year, edition, 'legacy 1.6'} x mod suffix {none, \
+         punctuation, a number-word hyphenation, three words gluing digits and letters) x bracket suffix {none, year, edition, 'legacy 1.6'} x mod suffix {none, \
          ' - FiveM', ' - Multi Theft Auto'}; for each name: the checker must not panic; the ids it reports as expected must \
          not depend on which wrong id is probed; each reported id must be accepted (empty result) and each single edit of it \
          (drop first/last char, upper-case a letter, swap, append, prepend) must be rejected. lists: every sequence of up to 3 \
